@@ -306,3 +306,162 @@ Qed.
 Theorem src_mesa_notify_spec tb dead slots n t s :
   src_mesa_notify tb dead slots n t s = inl (sset (n, t) (live dead (sget (n, t) s)) s, live dead (sget (n, t) s)).
 Proof. reflexivity. Qed.
+
+(* ================================================================== the mutators inherited from MutableSequence
+   (translated from the CPython stdlib source by harness/tables/signals_stdlib.py): abstract sequence programs over
+   getitem / setitem / delitem / append / index / len, instantiated with SignalingList's own methods. State =
+   (the data, the signals emitted so far). *)
+Definition sq := (list Z * list emit)%type.
+Section Derived.
+  Variable tb : sig_tables.
+  (* SignalingList.__getitem__ : return self.data[index]   (int index) *)
+  Definition q_getitem (s : sq) (i : Z) : Z + Z :=
+    match norm_index (zlen (fst s)) i with Some j => inl (znth (fst s) j) | None => inr E_INDEX end.
+  Definition q_of_lres (s : sq) (r : lres) : sq + Z :=
+    match r with LOk d' es _ => inl (d', snd s ++ es) | LErr k => inr k end.
+  Definition q_setitem (s : sq) (i v : Z) : sq + Z := q_of_lres s (p_setitem tb (fst s) i v).
+  Definition q_delitem (s : sq) (i : Z) : sq + Z := q_of_lres s (p_delitem tb (fst s) i).
+  Definition q_append (s : sq) (v : Z) : sq := (fst s ++ [v], snd s ++ [em_append tb v (zlen (fst s))]).
+  (* Sequence.index (transcribed: index_of; source checked verbatim by gen_ms_glue_ok) *)
+  Definition q_index (s : sq) (v : Z) : Z + Z :=
+    match index_of 0 v (fst s) with Some j => inl j | None => inr E_VALUE end.
+  Definition q_len (s : sq) : Z := zlen (fst s).
+  Definition q_snapshot (s : sq) : list Z := fst s.
+
+  Definition src_pop := gen_ms_pop q_getitem q_setitem q_delitem q_append q_index q_len q_snapshot.
+  Definition src_remove := gen_ms_remove q_getitem q_setitem q_delitem q_append q_index q_len q_snapshot.
+  Definition src_extend := gen_ms_extend q_getitem q_setitem q_delitem q_append q_index q_len q_snapshot.
+  Definition src_iadd := gen_ms_iadd q_getitem q_setitem q_delitem q_append q_index q_len q_snapshot src_extend.
+  Definition src_reverse := gen_ms_reverse q_getitem q_setitem q_delitem q_append q_index q_len q_snapshot.
+  Definition src_clear_list :=
+    gen_ms_clear q_getitem q_setitem q_delitem q_append q_index q_len q_snapshot (fun s => src_pop s gen_ms_pop_default).
+
+  Definition lres_of_q (r : (sq * option Z) + Z) : lres :=
+    match r with
+    | inl ((d, es), Some v) => LOk d es (VInt v)
+    | inl ((d, es), None) => LOk d es VNone
+    | inr k => LErr k
+    end.
+
+  Lemma pop_bridge_acc d acc i :
+    src_pop (d, acc) i =
+    match l_pop tb d i with
+    | LOk d' es (VInt v) => inl ((d', acc ++ es), Some v)
+    | LOk d' es _ => inr 99
+    | LErr k => inr k
+    end.
+  Proof.
+    unfold src_pop, gen_ms_pop, l_pop, q_getitem, q_delitem, p_delitem. cbn [fst snd].
+    destruct (norm_index (zlen d) i) as [j|]; reflexivity.
+  Qed.
+  Lemma pop_bridge d i : l_pop tb d i = lres_of_q (src_pop (d, []) i).
+  Proof. rewrite pop_bridge_acc. unfold l_pop, p_delitem. destruct (norm_index (zlen d) i); reflexivity. Qed.
+
+  Lemma remove_bridge d v : l_remove tb d v = lres_of_q (src_remove (d, []) v).
+  Proof.
+    unfold src_remove, gen_ms_remove, l_remove, q_index, q_delitem, p_delitem. cbn [fst snd].
+    destruct (index_of 0 v d) as [j|]; [|reflexivity]. destruct (norm_index (zlen d) j); reflexivity.
+  Qed.
+
+  Lemma extend_fold vs : forall d acc,
+    fold_err (fun s v => inl (q_append s v)) vs (d, acc) = inl (extend_loop tb d vs acc).
+  Proof. induction vs as [|v t IH]; intros d acc; cbn [fold_err extend_loop]; [reflexivity|]. apply IH. Qed.
+  Lemma extend_bridge d vs : l_extend tb d vs = lres_of_q (src_extend (d, []) vs false).
+  Proof.
+    unfold src_extend, gen_ms_extend, l_extend. cbv zeta. rewrite extend_fold.
+    destruct (extend_loop tb d vs []). reflexivity.
+  Qed.
+  (* extend(self): `if values is self: values = list(values)` *)
+  Lemma extend_self_bridge d vs : l_extend tb d d = lres_of_q (src_extend (d, []) vs true).
+  Proof.
+    unfold src_extend, gen_ms_extend, l_extend, q_snapshot. cbv zeta. cbn [fst]. rewrite extend_fold.
+    destruct (extend_loop tb d d []). reflexivity.
+  Qed.
+  (* __iadd__ = extend, return self; the descriptor's __set__ that `owner.l += vs` then performs is the model's em_change *)
+  Lemma iadd_bridge d vs : l_extend tb d vs = lres_of_q (src_iadd (d, []) vs false).
+  Proof.
+    unfold src_iadd, gen_ms_iadd. pose proof (extend_bridge d vs) as E. unfold src_extend in *.
+    unfold gen_ms_extend in *. cbv zeta in *. rewrite extend_fold in *.
+    rewrite E. destruct (extend_loop tb d vs []). reflexivity.
+  Qed.
+
+  Lemma l_pop_err d i k : l_pop tb d i = LErr k -> k = E_INDEX.
+  Proof.
+    unfold l_pop, p_delitem. destruct (norm_index (zlen d) i); intros H; inversion H. reflexivity.
+  Qed.
+  Lemma l_pop_ret d i d' es r : l_pop tb d i = LOk d' es r -> exists v, r = VInt v.
+  Proof.
+    unfold l_pop, p_delitem. destruct (norm_index (zlen d) i); intros H; inversion H. eexists. reflexivity.
+  Qed.
+  Lemma l_pop_m1_cons a t :
+    l_pop tb (a :: t) (-1) =
+    LOk (zdel (a :: t) (zlen (a :: t) - 1))
+        [em_remove tb (VInt (znth (a :: t) (zlen (a :: t) - 1))) (IInt (-1))] (VInt (znth (a :: t) (zlen (a :: t) - 1))).
+  Proof. unfold l_pop, p_delitem. rewrite (norm_index_m1 (a :: t)) by discriminate. reflexivity. Qed.
+  Lemma clear_while fuel : forall d acc, (length d < fuel)%nat ->
+    while_catch fuel 4 (fun s => match src_pop s gen_ms_pop_default with inl (s, _) => inl s | inr e => inr e end) (d, acc)
+    = inl (clear_loop tb fuel d acc).
+  Proof.
+    induction fuel as [|f IH]; intros d acc H; [lia|]. cbn [while_catch clear_loop].
+    rewrite pop_bridge_acc. change gen_ms_pop_default with (-1).
+    destruct d as [|a t]; [reflexivity|]. rewrite l_pop_m1_cons. apply IH.
+    assert (0 <= zlen (a :: t) - 1 < zlen (a :: t)) as Hr by (unfold zlen; cbn [length]; rewrite Nat2Z.inj_succ; lia).
+    rewrite (length_zdel _ _ Hr). cbn [length] in *. lia.
+  Qed.
+  Lemma clear_bridge_list d : l_clear tb d = lres_of_q (src_clear_list (S (length d)) (d, [])).
+  Proof.
+    unfold src_clear_list, gen_ms_clear, l_clear. rewrite clear_while by lia.
+    destruct (clear_loop tb (S (length d)) d []). reflexivity.
+  Qed.
+
+  (* one round of MutableSequence.reverse, as the model's reverse_loop performs it *)
+  Definition rev_step (d : list Z) (acc : list emit) (i : Z) : sq :=
+    let n := zlen d in
+    let a := znth d (n - i - 1) in
+    let b := znth d i in
+    let e1 := em_replace tb (VInt (znth d i)) (VInt a) (IInt i) in
+    let d1 := zupd d i a in
+    let e2 := em_replace tb (VInt (znth d1 (n - i - 1))) (VInt b) (IInt (n - i - 1)) in
+    let d2 := zupd d1 (n - i - 1) b in
+    (d2, acc ++ [e1; e2]).
+  Lemma reverse_loop_S f i d acc :
+    reverse_loop tb (S f) i d acc = reverse_loop tb f (i + 1) (fst (rev_step d acc i)) (snd (rev_step d acc i)).
+  Proof. reflexivity. Qed.
+  Lemma rev_step_len d acc i : 0 <= i -> i < zlen d / 2 -> zlen (fst (rev_step d acc i)) = zlen d.
+  Proof.
+    intros Hi Hb. assert (0 <= zlen d) by (unfold zlen; lia).
+    assert (2 * (zlen d / 2) <= zlen d) by (apply Z.mul_div_le; lia).
+    assert (0 <= i < zlen d) as R1 by lia. assert (0 <= zlen d - i - 1 < zlen d) as R2 by lia.
+    unfold rev_step. cbn [fst]. rewrite zlen_zupd; [apply zlen_zupd; exact R1|rewrite zlen_zupd by exact R1; exact R2].
+  Qed.
+
+  Lemma reverse_fold (f : sq -> Z -> sq + Z) n :
+    (forall d acc i, zlen d = n -> 0 <= i -> i < n / 2 -> f (d, acc) i = inl (rev_step d acc i)) ->
+    forall fuel i d acc, zlen d = n -> 0 <= i -> i + Z.of_nat fuel <= n / 2 ->
+    fold_err f (map (fun k => i + Z.of_nat k) (seq 0 fuel)) (d, acc) = inl (reverse_loop tb fuel i d acc).
+  Proof.
+    intros Hf. induction fuel as [|fu IH]; intros i d acc Hl Hi Hb; [reflexivity|].
+    cbn [seq map fold_err]. rewrite Z.add_0_r. rewrite (Hf d acc i Hl Hi) by lia.
+    rewrite reverse_loop_S. destruct (rev_step d acc i) as [d2 acc2] eqn:E. cbn [fst snd].
+    rewrite <- seq_shift, map_map.
+    rewrite (map_ext _ (fun k => (i + 1) + Z.of_nat k)) by (intros k; lia).
+    apply IH; [|lia|lia].
+    replace d2 with (fst (rev_step d acc i)) by (rewrite E; reflexivity). rewrite rev_step_len; [exact Hl|exact Hi|rewrite Hl; lia].
+  Qed.
+
+  Lemma reverse_bridge d : l_reverse tb d = lres_of_q (src_reverse (d, [])).
+  Proof.
+    unfold src_reverse, gen_ms_reverse, l_reverse. cbv zeta. unfold q_len. cbn [fst].
+    assert (0 <= zlen d / 2) as H2 by (apply Z.div_pos; unfold zlen; lia).
+    unfold zrange. replace (Z.to_nat (zlen d / 2 - 1 - 0 + 1)) with (Z.to_nat (zlen d / 2)) by lia.
+    erewrite (reverse_fold _ (zlen d)); [destruct (reverse_loop tb (Z.to_nat (zlen d / 2)) 0 d []); reflexivity| |reflexivity|lia|lia].
+    intros d0 acc i Hl Hi Hb.
+    assert (0 <= zlen d0) by (unfold zlen; lia).
+    assert (2 * (zlen d0 / 2) <= zlen d0) by (apply Z.mul_div_le; lia).
+    unfold q_getitem, q_setitem, p_setitem, rev_step. cbn [fst snd]. rewrite <- Hl in *.
+    rewrite (norm_index_in (zlen d0) (zlen d0 - i - 1)) by lia.
+    rewrite (norm_index_in (zlen d0) i) by lia. cbn [q_of_lres fst snd].
+    rewrite zlen_zupd by lia. rewrite (norm_index_in (zlen d0) (zlen d0 - i - 1)) by lia. cbn [q_of_lres fst snd].
+    rewrite <- app_assoc. reflexivity.
+  Qed.
+End Derived.
